@@ -16,6 +16,7 @@ import (
 	"math/rand"
 	"strings"
 	"testing"
+	"time"
 
 	chunker "github.com/ipfs/boxo/chunker"
 	mdag "github.com/ipfs/boxo/ipld/merkledag"
@@ -326,12 +327,15 @@ func genImporter(e *vh.Env) *config {
 	case x < 17:
 		c.Chunk = []int{16, 31, 32, 64, 100, 256, 512}[r.Intn(7)]
 		c.Len = r.Intn(40*c.Chunk + 1)
-	case x < 19:
-		c.Chunk = []int{1024, 4096, 16384}[r.Intn(3)]
-		c.Len = r.Intn(24*c.Chunk + 1)
-	default: // large files, few leaves
-		c.Chunk = []int{65536, 262144}[r.Intn(2)]
-		c.Len = r.Intn(e.Pick(300000, 2200000))
+	case x < 19 || r.Intn(4) != 0:
+		c.Chunk = []int{1024, 4096}[r.Intn(2)]
+		c.Len = r.Intn(10*c.Chunk + 1)
+	default: // large files, few leaves (every byte costs Coq time: rare, more in the thorough tier)
+		c.Chunk = []int{16384, 65536, 262144}[r.Intn(3)]
+		c.Len = r.Intn(e.Pick(100000, 600000))
+		if e.Thorough() && r.Intn(10) == 0 {
+			c.Len = r.Intn(2200000)
+		}
 	}
 	if r.Intn(6) == 0 && c.Chunk > 0 { // exact multiples of the chunk size
 		c.Len = (c.Len / c.Chunk) * c.Chunk
@@ -421,6 +425,9 @@ func build(ctx context.Context, c *config, ds ipld.DAGService) (ipld.Node, []src
 func genOps(e *vh.Env, size, chunk int) []op {
 	r := e.Rng
 	n := 1 + r.Intn(30)
+	if size > 16384 { // long histories over big files cost Coq minutes
+		n = 1 + r.Intn(10)
+	}
 	pos := int64(0)
 	anyTarget := func() int64 {
 		switch r.Intn(10) {
@@ -541,26 +548,27 @@ func runCase(e *vh.Env, c *config, ops []op) (term string, info walkInfo, size u
 		ops = genOps(e, len(info.content), max(c.Chunk, 1))
 	}
 	obs := make([]string, 0, len(ops))
-	for _, o := range ops {
-		switch o.Kind {
-		case "read":
-			b := make([]byte, o.N)
-			n, err := dr.Read(b)
-			obs = append(obs, vh.App("BRead", encode(b[:n], srcs, -1), errClass(err)))
-		case "ctxread":
-			b := make([]byte, o.N)
-			n, err := dr.CtxReadFull(ctx, b)
-			obs = append(obs, vh.App("BRead", encode(b[:n], srcs, -1), errClass(err)))
-		case "seek":
-			p, err := dr.Seek(o.Off, o.Whence)
-			obs = append(obs, vh.App("BSeek", vh.Z(p), vh.Bool(err == nil)))
-		case "writeto":
-			var buf bytes.Buffer
-			n, err := dr.WriteTo(&buf)
-			if n != int64(buf.Len()) {
-				return "", info, size, fmt.Errorf("WriteTo returned %d but wrote %d bytes", n, buf.Len())
-			}
-			obs = append(obs, vh.App("BWrite", encode(buf.Bytes(), srcs, -1), errClass(err)))
+	for i, o := range ops {
+		// watchdog: a call that does not return ends the case with a harness-level failure
+		var opErr error
+		fin := make(chan struct{})
+		go func() {
+			defer close(fin)
+			defer func() {
+				if r := recover(); r != nil {
+					opErr = fmt.Errorf("call %d (%s) panicked: %v", i, o.Kind, r)
+				}
+			}()
+			opErr = doOp(ctx, dr, o, srcs, &obs)
+		}()
+		select {
+		case <-fin:
+		case <-time.After(opTimeout):
+			hangs++
+			return "", info, size, fmt.Errorf("call %d (%s) did not return within %s", i, o.Kind, opTimeout)
+		}
+		if opErr != nil {
+			return "", info, size, opErr
 		}
 	}
 	expect, kind := "None", 0
@@ -578,13 +586,46 @@ func runCase(e *vh.Env, c *config, ops []op) (term string, info walkInfo, size u
 	return term, info, size, nil
 }
 
+const opTimeout = 20 * time.Second
+
+var hangs int
+
+// doOp performs one call on the real reader and appends what it returned.
+func doOp(ctx context.Context, dr uio.DagReader, o op, srcs []src, out *[]string) error {
+	obs := *out
+	defer func() { *out = obs }()
+	{
+		switch o.Kind {
+		case "read":
+			b := make([]byte, o.N)
+			n, err := dr.Read(b)
+			obs = append(obs, vh.App("BRead", encode(b[:n], srcs, -1), errClass(err)))
+		case "ctxread":
+			b := make([]byte, o.N)
+			n, err := dr.CtxReadFull(ctx, b)
+			obs = append(obs, vh.App("BRead", encode(b[:n], srcs, -1), errClass(err)))
+		case "seek":
+			p, err := dr.Seek(o.Off, o.Whence)
+			obs = append(obs, vh.App("BSeek", vh.Z(p), vh.Bool(err == nil)))
+		case "writeto":
+			var buf bytes.Buffer
+			n, err := dr.WriteTo(&buf)
+			if n != int64(buf.Len()) {
+				return fmt.Errorf("WriteTo returned %d but wrote %d bytes", n, buf.Len())
+			}
+			obs = append(obs, vh.App("BWrite", encode(buf.Bytes(), srcs, -1), errClass(err)))
+		}
+	}
+	return nil
+}
+
 var lastOps []op
 
 func TestC09(t *testing.T) {
 	e := vh.Load(t)
 	st := vh.NewStats("call sequences of 1..30 Read/CtxReadFull (buffers 0..2x chunk, whole file), Seek (3 whences + invalid, targets in " +
 		"[-size-4, size+2], leaf boundaries +-1, near the position) and WriteTo on the real DagReader over DAGs from balanced/trickle import " +
-		"(width 2..8,16,174,1024; chunk 1..256Ki; raw/dag-pb leaves; CIDv0/v1/blake2b; 0..300 KB quick, ..2 MB thorough), from DagModifier " +
+		"(width 2..8,16,174,1024; chunk 1..256Ki; raw/dag-pb leaves; CIDv0/v1/blake2b; 0..100 KB quick, ..2 MB thorough), from DagModifier " +
 		"histories, and hand-built trees with wrong recorded sizes; non-trivial = at least 4 calls incl. a seek and a read on a DAG with >= 3 leaves; " +
 		"distinct by (config, calls)")
 	cs := vh.NewCases(e, "From V Require Import model.M_C10 model.M_C09.\nOpen Scope Z_scope.", "case", "check_case", 100)
@@ -626,6 +667,9 @@ func TestC09(t *testing.T) {
 		jobs = append(jobs, job{c, nil})
 	}
 	for _, j := range jobs {
+		if hangs >= 3 {
+			break
+		}
 		term, info, size, err := runCase(e, j.c, j.ops)
 		rp := map[string]any{"config": j.c, "ops": lastOps}
 		if err != nil {
